@@ -170,6 +170,27 @@ def t_chk2plt_api(P, P2, out, opt):
     cls(P, species=["H2", "O2"], pltdir=out)
 
 
+def t_chk2plt_ref(P, P2, out, opt):
+    """species names taken from a reference plotfile (an INPUT) that stands beside the checkpoint"""
+    cls = sys.modules["amr_kitchen.chk2plt.chk2plt"].chk2plt
+    cls(P, target_plotfile=P2, pltdir=out)
+
+
+def t_mandoline_object(P, P2, out, opt):
+    """ONE Mandoline object: a slice to an explicit output elsewhere first, then the slice under check (explicit or default
+    output) - an output path belongs to the call that gives it"""
+    from amr_kitchen.mandoline import Mandoline
+    m = Mandoline(P, fields=opt.get("fields", ["temp", "density"]), serial=opt.get("serial", False), verbose=0)
+    first = os.path.join(os.path.dirname(os.path.dirname(os.path.realpath(P.rstrip("/")))), "elsewhere", "first_out")
+    m.slice(normal=0, pos=None, outfile=first, fformat=opt["fformat"])
+    for p_ in (first, first + ".npz"):
+        if os.path.isdir(p_):
+            shutil.rmtree(p_)
+        elif os.path.exists(p_):
+            os.remove(p_)
+    m.slice(normal=opt.get("normal", 0), pos=None, outfile=out, fformat=opt["fformat"])
+
+
 def t_chk2plt_cli(P, P2, out, opt):
     import amr_kitchen.chk2plt.cli as m
     _argv(["chk2plt", "-c", P, "-s", "1", "2"] + (["-o", out] if out else []), m.main)
@@ -207,12 +228,15 @@ TOOLS = {
     "marinate": (t_marinate, "plt3", False, ["default"], [{}], ["missing_level_header"]),
     "chk2plt_api": (t_chk2plt_api, "chk", False, ["explicit", "default"], [{}], ["missing_binary", "missing_level_header"]),
     "chk2plt_cli": (t_chk2plt_cli, "chk", False, ["explicit", "default"], [{}], ["missing_binary", "missing_level_header"]),
+    "chk2plt_ref": (t_chk2plt_ref, "chkref", True, ["explicit", "default"], [{}], ["missing_binary", "missing_level_header"]),
+    "mandoline_object": (t_mandoline_object, "plt3", False, ["explicit", "default"], [{"fformat": "array"}, {"fformat": "plotfile", "serial": True}],
+                         ["missing_binary", "missing_level_header"]),
 }
 
 
 # tools that never open a binary file / tools that read every box of level 0 whatever their options
 NO_DATA = {"menu_cli", "menu_cli_minmax", "minuterie", "marinate"}
-READS_ALL = {"colander_api", "colander_cli", "combine_api", "combine_cli", "chef_api", "chef_cli", "chef_builtin", "pestle_api", "pestle_cli",
+READS_ALL = {"chk2plt_ref", "colander_api", "colander_cli", "combine_api", "combine_cli", "chef_api", "chef_cli", "chef_builtin", "pestle_api", "pestle_cli",
              "whip_cli", "taste_api", "taste_cli", "chk2plt_api", "chk2plt_cli", "mandoline_api_2d"}
 NO_OUTPUT = set(n for n, t in TOOLS.items() if t[3] == ["none"])
 
@@ -300,11 +324,21 @@ class Env(object):
         os.makedirs(os.path.join(self.root, "elsewhere"))
         os.makedirs(os.path.join(self.root, "recipes"))
         self.inputs = []
-        if kind == "chk":
+        if kind in ("chk", "chkref"):
             self.p1 = os.path.join(self.indir, nchk)
             chkmodel.write_checkpoint(dict(chkdesc(), seed=seed), self.p1)
             self.inputs = [self.p1]
             self.p2 = None
+            if kind == "chkref":
+                # a reference plotfile of an earlier step beside a checkpoint whose step number has seven digits: the documented
+                # default output of chk0000010 is plt0000010 - plt00010 is an input
+                self.p1 = os.path.join(self.indir, "chk0000010")
+                os.rename(os.path.join(self.indir, nchk), self.p1)
+                d = mesh3()
+                d["seed"] = seed + 2
+                d["fields"] = ["Y(H2)", "Y(O2)", "temp"]
+                self.p2, _ = build(d, self.indir, "plt00010", prehistory=False, pathform="plain")
+                self.inputs = [self.p1, self.p2]
         elif kind == "thermo":
             from . import c11
             from ..refmodel import write_plotfile
@@ -347,7 +381,7 @@ def execute(case, env, fail_at=None, breakage=None, opt_index=None, fail_read_at
         elif name.startswith(("whip", "pestle")):
             opt["field"] = "no_such_field"
     if breakage == "missing_binary":
-        if kind == "chk":
+        if kind in ("chk", "chkref"):
             os.remove(os.path.join(env.p1, "Level_1", "state_D_00001"))
         else:
             lv = "Level_1"
@@ -358,14 +392,14 @@ def execute(case, env, fail_at=None, breakage=None, opt_index=None, fail_read_at
         # an interrupted copy: the first binary file of level 0 ends 20 bytes into the data of its first FAB (inside the
         # FIRST field, so that whatever field a tool reads from that box is incomplete)
         lvd = os.path.join(env.p1, "Level_0")
-        victim = os.path.join(lvd, sorted(f for f in os.listdir(lvd) if f.startswith("state_D" if kind == "chk" else "Cell_D"))[0])
+        victim = os.path.join(lvd, sorted(f for f in os.listdir(lvd) if f.startswith("state_D" if kind in ("chk", "chkref") else "Cell_D"))[0])
         with open(victim, "r+b") as f_:
             hdr = f_.readline()
             f_.truncate(len(hdr) + 20)
     if breakage == "cut_at_fab_boundary":
         # the interrupted copy ended exactly between two FABs: the first binary file of level 1 that holds several boxes
         # keeps its first FAB only
-        pref = "state_D" if kind == "chk" else "Cell_D"
+        pref = "state_D" if kind in ("chk", "chkref") else "Cell_D"
         env.breakage_applied = False
         for lvn_ in ("Level_1", "Level_0"):
             lvd = os.path.join(env.p1, lvn_)
@@ -381,7 +415,7 @@ def execute(case, env, fail_at=None, breakage=None, opt_index=None, fail_read_at
             if env.breakage_applied:
                 break
     if breakage == "missing_level_header":
-        os.remove(os.path.join(env.p1, "Level_0", "state_H" if kind == "chk" else "Cell_H"))
+        os.remove(os.path.join(env.p1, "Level_0", "state_H" if kind in ("chk", "chkref") else "Cell_H"))
     P = path_form(env.p1, cwd, form)
     P2 = path_form(env.p2, cwd, form) if two else None
     if case["outmode"] in ("explicit", "twice"):
@@ -427,6 +461,15 @@ def execute(case, env, fail_at=None, breakage=None, opt_index=None, fail_read_at
         allowed = default_prefixes(name, env, os.path.realpath(cwd), opt)
     lib = os.path.realpath(os.environ.get("MPLCONFIGDIR", "/nonexistent"))
     ev = [(e, p) for e, p in ev if not audit.inside(p, lib)]
+    if name == "mandoline_object":
+        # (the object's FIRST slice went, as requested, to <root>/elsewhere/first_out: not the call under check)
+        first_ = os.path.join(os.path.realpath(env.root), "elsewhere", "first_out")
+        ev = [(e, p) for e, p in ev if not p.startswith(first_)]
+        # ... which the driver removed before the second call: if it is there again, the SECOND call wrote it
+        if outcome and outcome[0] == "ok":
+            for p_ in (first_, first_ + ".npz"):
+                if os.path.lexists(p_):
+                    ev.append(("open_w", p_))
     if name not in NO_OUTPUT:
         digest = output_digest(allowed)
     else:
